@@ -44,29 +44,32 @@ type loopInfo struct {
 }
 
 type Frame struct {
-	vc        *VC
-	fn        *ssa.Function
-	depth     int
-	path      string
-	vals      map[ssa.Value]Val
-	reach     map[int]string
-	exitHeap  map[int]Heap
-	edge      map[[2]int]string
-	loops     map[int]*loopInfo
-	defers    []deferRec
-	names     map[string][]nameBind
-	contract  *Contract
-	isTop     bool
-	entryHeap Heap
-	rets      []retRec
-	params    []Val
-	callOrd   map[string]int
-	safeOrd   map[string]int
-	curBlock  *ssa.BasicBlock
-	curReach  string
-	heap      Heap // current heap while translating a block
-	oldHeap   Heap // heap for old() in spec expressions (entry heap of the top function / callee)
-	panicked  bool
+	vc         *VC
+	fn         *ssa.Function
+	depth      int
+	path       string
+	vals       map[ssa.Value]Val
+	reach      map[int]string
+	exitHeap   map[int]Heap
+	edge       map[[2]int]string
+	loops      map[int]*loopInfo
+	defers     []deferRec
+	names      map[string][]nameBind
+	contract   *Contract
+	isTop      bool
+	entryHeap  Heap
+	rets       []retRec
+	params     []Val
+	callOrd    map[string]int
+	safeOrd    map[string]int
+	curBlock   *ssa.BasicBlock
+	curReach   string
+	heapIn     Heap
+	entryReach string
+	unrolling  map[int]bool
+	heap       Heap // current heap while translating a block
+	oldHeap    Heap // heap for old() in spec expressions (entry heap of the top function / callee)
+	panicked   bool
 }
 
 func shortFn(fn *ssa.Function) string {
@@ -294,6 +297,16 @@ func (vc *VC) binop(op token.Token, x, y Val, rt types.Type, fr *Frame, pos toke
 		return Val{T: eq, Typ: rt}
 	case token.LSS, token.LEQ, token.GTR, token.GEQ:
 		m := map[token.Token]string{token.LSS: "<", token.LEQ: "<=", token.GTR: ">", token.GEQ: ">="}[op]
+		if a, ok := constOf(x); ok {
+			if b, ok := constOf(y); ok {
+				c := a.Cmp(b)
+				r := (op == token.LSS && c < 0) || (op == token.LEQ && c <= 0) || (op == token.GTR && c > 0) || (op == token.GEQ && c >= 0)
+				if r {
+					return Val{T: "true", Typ: rt}
+				}
+				return Val{T: "false", Typ: rt}
+			}
+		}
 		if isString(x.Typ) {
 			vc.declFun("strless", "(Str Str) Bool")
 			r := vc.free("strcmp", "Bool")
@@ -333,6 +346,15 @@ func (vc *VC) binop(op token.Token, x, y Val, rt types.Type, fr *Frame, pos toke
 	res := Val{Typ: rt}
 	xc, xIsC := constOf(x)
 	yc, yIsC := constOf(y)
+	if xIsC && yIsC {
+		if r, ok := foldConst(op, xc, yc, k); ok {
+			v := Val{T: sBig(r), Typ: rt}
+			if r.Sign() >= 0 {
+				v.Mask = r
+			}
+			return v
+		}
+	}
 	switch op {
 	case token.ADD:
 		if x.Mask != nil && y.Mask != nil && new(big.Int).And(x.Mask, y.Mask).Sign() == 0 && !k.signed {
@@ -417,6 +439,7 @@ func (vc *VC) binop(op token.Token, x, y Val, rt types.Type, fr *Frame, pos toke
 		if x.Mask != nil && y.Mask != nil && new(big.Int).And(x.Mask, y.Mask).Sign() == 0 && !k.signed {
 			res.T = sApp("+", x.T, y.T)
 			res.Mask = new(big.Int).Or(x.Mask, y.Mask)
+			res.Dig = mergeDigits(x.Dig, y.Dig)
 			return res
 		}
 		var c *big.Int
@@ -472,6 +495,12 @@ func (vc *VC) binop(op token.Token, x, y Val, rt types.Type, fr *Frame, pos toke
 				if nm.Cmp(full) <= 0 {
 					res.T = sApp("*", x.T, pow2s(s))
 					res.Mask = nm
+					if s%8 == 0 && x.Dig != nil {
+						for i := 0; i < s/8; i++ {
+							res.Dig = append(res.Dig, "0")
+						}
+						res.Dig = append(res.Dig, x.Dig...)
+					}
 					return res
 				}
 			}
@@ -490,6 +519,17 @@ func (vc *VC) binop(op token.Token, x, y Val, rt types.Type, fr *Frame, pos toke
 			s := int(yc.Int64())
 			if s >= k.bits && !k.signed {
 				return Val{T: "0", Typ: rt, Mask: big.NewInt(0)}
+			}
+			if !k.signed && s%8 == 0 && s > 0 && k.bits > 8 && !xIsC {
+				d := vc.digits(x, k.bits)
+				nd := d[s/8:]
+				res.T = digSum(nd)
+				res.Dig = nd
+				res.Mask = new(big.Int).Rsh(full, uint(s))
+				if x.Mask != nil {
+					res.Mask = new(big.Int).Rsh(x.Mask, uint(s))
+				}
+				return res
 			}
 			res.T = sApp("div", x.T, pow2s(s))
 			if x.Mask != nil {
@@ -583,10 +623,23 @@ func (vc *VC) convert(x Val, to types.Type, h *Heap, reach string) Val {
 			if fits {
 				res.T = x.T
 				res.Mask = x.Mask
+				res.Dig = x.Dig
 				if res.Mask == nil && !fk.signed {
 					res.Mask = maskOfType(fk)
 				}
+				if res.Dig == nil && !fk.signed && fk.bits == 8 {
+					res.Dig = []string{x.T}
+				}
 				return res
+			}
+			if !fk.signed && !tk.signed && tk.bits%8 == 0 && fk.bits > tk.bits {
+				if _, isC := constOf(x); !isC {
+					d := vc.digits(x, fk.bits)[:tk.bits/8]
+					res.T = digSum(d)
+					res.Dig = d
+					res.Mask = maskOfType(tk)
+					return res
+				}
 			}
 			res.T = vc.wrap(x.T, tk)
 			if !tk.signed {
@@ -871,86 +924,20 @@ func (fr *Frame) run(args []Val, entryReach string, heapIn Heap) (Val, Heap, str
 	fr.analyzeLoops()
 	fr.collectNames()
 	order := fr.rpo()
+	fr.heapIn = heapIn
+	fr.entryReach = entryReach
+	done := map[int]bool{}
 	for _, b := range order {
-		fr.curBlock = b
-		var reach string
-		var heap Heap
-		li := fr.loops[b.Index]
-		if b.Index == 0 {
-			reach = entryReach
-			heap = heapIn.clone()
-		} else {
-			var conds []string
-			var hs []Heap
-			var preds []*ssa.BasicBlock
-			for _, p := range b.Preds {
-				if b.Dominates(p) && li != nil {
-					continue // back edge
-				}
-				c, ok := fr.edge[[2]int{p.Index, b.Index}]
-				if !ok {
-					continue // predecessor not reachable in forward order (e.g. from recover block)
-				}
-				conds = append(conds, c)
-				hs = append(hs, fr.exitHeap[p.Index])
-				preds = append(preds, p)
-			}
-			if len(conds) == 0 {
-				fr.reach[b.Index] = "false"
-				fr.exitHeap[b.Index] = heapIn.clone()
+		if done[b.Index] {
+			continue
+		}
+		if li := fr.loops[b.Index]; li != nil {
+			if k := fr.unrollCount(li); k > 0 {
+				fr.unrollLoop(li, order, k, done)
 				continue
 			}
-			reach = vc.def(fmt.Sprintf("reach_%s_b%d", fn.Name(), b.Index), "Bool", sOr(conds...))
-			if li != nil {
-				// loop entry: check invariants on entry edges
-				for i, p := range preds {
-					fr.checkInvariant(li, p, conds[i], hs[i], "entry")
-				}
-			}
-			heap = vc.mergeHeaps(conds, hs)
-			// phis
-			for _, in := range b.Instrs {
-				ph, ok := in.(*ssa.Phi)
-				if !ok {
-					break
-				}
-				if li != nil {
-					continue
-				}
-				var vs []Val
-				for _, p := range preds {
-					idx := predIndex(b, p)
-					vs = append(vs, fr.val(ph.Edges[idx]))
-				}
-				fr.vals[ph] = vc.mergeVals(ph.Name(), ph.Type(), conds, vs)
-			}
 		}
-		fr.curReach = reach
-		fr.reach[b.Index] = reach
-		fr.heap = heap
-		if li != nil {
-			fr.enterLoop(li)
-		}
-		fr.panicked = false
-		for _, in := range b.Instrs {
-			if _, ok := in.(*ssa.Phi); ok {
-				continue
-			}
-			fr.instr(in)
-			if fr.panicked {
-				break
-			}
-		}
-		fr.exitHeap[b.Index] = fr.heap
-		// back edges leaving this block
-		for _, s := range b.Succs {
-			if s.Dominates(b) {
-				if l2 := fr.loops[s.Index]; l2 != nil {
-					c := fr.edge[[2]int{b.Index, s.Index}]
-					fr.checkInvariant(l2, b, c, fr.heap, "pres")
-				}
-			}
-		}
+		fr.block(b, nil)
 	}
 	// merge returns
 	if len(fr.rets) == 0 {
@@ -1159,4 +1146,538 @@ func (vc *VC) specError(fn *ssa.Function, cl *Clause, err error) {
 	name := fmt.Sprintf("%s/spec-error/%s:%d", fnName(fn), cl.File, cl.Line)
 	o := vc.oblige("spec-error", name, cl.Tags, "true", "false", fn, token.NoPos, cl.Src)
 	o.Extra = map[string]string{"error": err.Error()}
+}
+
+type headOverride struct {
+	conds []string
+	heaps []Heap
+	phis  map[*ssa.Phi][]Val
+}
+
+// block translates one basic block. ov, if set, supplies the incoming state of an unrolled loop head.
+func (fr *Frame) block(b *ssa.BasicBlock, ov *headOverride) {
+	vc := fr.vc
+	fn := fr.fn
+	fr.curBlock = b
+	var reach string
+	var heap Heap
+	li := fr.loops[b.Index]
+	if ov != nil {
+		if len(ov.conds) == 0 {
+			fr.reach[b.Index] = "false"
+			fr.exitHeap[b.Index] = fr.heapIn.clone()
+			for _, s := range b.Succs {
+				fr.edge[[2]int{b.Index, s.Index}] = "false"
+			}
+			return
+		}
+		reach = vc.def(fmt.Sprintf("reach_%s_b%d", fn.Name(), b.Index), "Bool", sOr(ov.conds...))
+		heap = vc.mergeHeaps(ov.conds, ov.heaps)
+		for _, in := range b.Instrs {
+			ph, ok := in.(*ssa.Phi)
+			if !ok {
+				break
+			}
+			fr.vals[ph] = vc.mergeVals(ph.Name(), ph.Type(), ov.conds, ov.phis[ph])
+		}
+		li = nil
+	} else if b.Index == 0 {
+		reach = fr.entryReach
+		heap = fr.heapIn.clone()
+	} else {
+		var conds []string
+		var hs []Heap
+		var preds []*ssa.BasicBlock
+		for _, p := range b.Preds {
+			if b.Dominates(p) && li != nil {
+				continue // back edge
+			}
+			c, ok := fr.edge[[2]int{p.Index, b.Index}]
+			if !ok {
+				continue // predecessor not reachable in forward order (e.g. from recover block)
+			}
+			conds = append(conds, c)
+			hs = append(hs, fr.exitHeap[p.Index])
+			preds = append(preds, p)
+		}
+		if len(conds) == 0 {
+			fr.reach[b.Index] = "false"
+			fr.exitHeap[b.Index] = fr.heapIn.clone()
+			return
+		}
+		reach = vc.def(fmt.Sprintf("reach_%s_b%d", fn.Name(), b.Index), "Bool", sOr(conds...))
+		if li != nil {
+			// loop entry: check invariants on entry edges
+			for i, p := range preds {
+				fr.checkInvariant(li, p, conds[i], hs[i], "entry")
+			}
+		}
+		heap = vc.mergeHeaps(conds, hs)
+		// phis
+		for _, in := range b.Instrs {
+			ph, ok := in.(*ssa.Phi)
+			if !ok {
+				break
+			}
+			if li != nil {
+				continue
+			}
+			var vs []Val
+			for _, p := range preds {
+				idx := predIndex(b, p)
+				vs = append(vs, fr.val(ph.Edges[idx]))
+			}
+			fr.vals[ph] = vc.mergeVals(ph.Name(), ph.Type(), conds, vs)
+		}
+	}
+	fr.curReach = reach
+	fr.reach[b.Index] = reach
+	fr.heap = heap
+	if li != nil {
+		fr.enterLoop(li)
+	}
+	fr.panicked = false
+	for _, in := range b.Instrs {
+		if _, ok := in.(*ssa.Phi); ok {
+			continue
+		}
+		fr.instr(in)
+		if fr.panicked {
+			break
+		}
+	}
+	fr.exitHeap[b.Index] = fr.heap
+	if fr.panicked {
+		for _, s := range b.Succs {
+			fr.edge[[2]int{b.Index, s.Index}] = "false"
+		}
+	}
+	// back edges leaving this block (only for loops cut by invariants)
+	for _, s := range b.Succs {
+		if s.Dominates(b) {
+			if l2 := fr.loops[s.Index]; l2 != nil && !fr.unrolling[s.Index] {
+				c := fr.edge[[2]int{b.Index, s.Index}]
+				fr.checkInvariant(l2, b, c, fr.heap, "pres")
+			}
+		}
+	}
+}
+
+// constant trip count of a simple counting loop, or the contract's unroll#n directive
+func (fr *Frame) unrollCount(li *loopInfo) int {
+	if fr.contract != nil {
+		if k, ok := fr.contract.Unroll[li.ordinal]; ok {
+			return k
+		}
+		if len(fr.contract.LoopInv[li.ordinal]) > 0 {
+			return 0
+		}
+	}
+	h := li.head
+	// find: phi i with constant entry value, latch value i+1, and a comparison i < N (or i <= N) with constant N guarding the body
+	for _, in := range h.Instrs {
+		ph, ok := in.(*ssa.Phi)
+		if !ok {
+			break
+		}
+		var start *big.Int
+		okShape := true
+		for i, e := range ph.Edges {
+			p := h.Preds[i]
+			if h.Dominates(p) {
+				bo, ok := e.(*ssa.BinOp)
+				if !ok || bo.Op != token.ADD || bo.X != ssa.Value(ph) {
+					okShape = false
+					break
+				}
+				c, ok := bo.Y.(*ssa.Const)
+				if !ok || c.Value == nil || c.Value.ExactString() != "1" {
+					okShape = false
+					break
+				}
+			} else {
+				c, ok := e.(*ssa.Const)
+				if !ok || c.Value == nil {
+					okShape = false
+					break
+				}
+				v, ok2 := new(big.Int).SetString(c.Value.ExactString(), 10)
+				if !ok2 {
+					okShape = false
+					break
+				}
+				start = v
+			}
+		}
+		if !okShape || start == nil {
+			continue
+		}
+		// the comparison: either on phi directly (for i < N) or on phi+1 (range loops)
+		for _, ref := range *ph.Referrers() {
+			var cmp *ssa.BinOp
+			off := int64(0)
+			if bo, ok := ref.(*ssa.BinOp); ok {
+				if bo.Op == token.LSS || bo.Op == token.LEQ {
+					cmp = bo
+				} else if bo.Op == token.ADD && bo.X == ssa.Value(ph) {
+					for _, r2 := range *bo.Referrers() {
+						if b2, ok := r2.(*ssa.BinOp); ok && (b2.Op == token.LSS || b2.Op == token.LEQ) && b2.X == ssa.Value(bo) {
+							cmp = b2
+							off = 1
+						}
+					}
+				}
+			}
+			if cmp == nil || !li.body[cmp.Block().Index] {
+				continue
+			}
+			c, ok := cmp.Y.(*ssa.Const)
+			if !ok || c.Value == nil {
+				continue
+			}
+			n, ok2 := new(big.Int).SetString(c.Value.ExactString(), 10)
+			if !ok2 {
+				continue
+			}
+			trip := new(big.Int).Sub(n, start)
+			if cmp.Op == token.LEQ {
+				trip.Add(trip, big.NewInt(1))
+			}
+			trip.Sub(trip, big.NewInt(off))
+			if trip.Sign() >= 0 && trip.Cmp(big.NewInt(130)) <= 0 {
+				// the body must be small
+				size := 0
+				for _, bb := range fr.fn.Blocks {
+					if li.body[bb.Index] {
+						size += len(bb.Instrs)
+					}
+				}
+				if size*int(trip.Int64()+1) <= 6000 {
+					return int(trip.Int64()) + 1
+				}
+			}
+		}
+	}
+	return 0
+}
+
+type exitRec struct {
+	from, to int
+	cond     string
+	heap     Heap
+	snap     map[ssa.Value]Val
+}
+
+func (fr *Frame) unrollLoop(li *loopInfo, order []*ssa.BasicBlock, K int, done map[int]bool) {
+	vc := fr.vc
+	h := li.head
+	if fr.unrolling == nil {
+		fr.unrolling = map[int]bool{}
+	}
+	fr.unrolling[h.Index] = true
+	var body []*ssa.BasicBlock
+	for _, b := range order {
+		if li.body[b.Index] {
+			body = append(body, b)
+		}
+	}
+	// live-out values
+	var liveOut []ssa.Value
+	for _, b := range body {
+		for _, in := range b.Instrs {
+			v, ok := in.(ssa.Value)
+			if !ok || v.Referrers() == nil {
+				continue
+			}
+			for _, r := range *v.Referrers() {
+				if r.Block() != nil && !li.body[r.Block().Index] {
+					liveOut = append(liveOut, v)
+					break
+				}
+			}
+		}
+	}
+	// entry state
+	ov := &headOverride{phis: map[*ssa.Phi][]Val{}}
+	for _, p := range h.Preds {
+		if h.Dominates(p) {
+			continue
+		}
+		c, ok := fr.edge[[2]int{p.Index, h.Index}]
+		if !ok {
+			continue
+		}
+		ov.conds = append(ov.conds, c)
+		ov.heaps = append(ov.heaps, fr.exitHeap[p.Index])
+		idx := predIndex(h, p)
+		for _, in := range h.Instrs {
+			ph, ok := in.(*ssa.Phi)
+			if !ok {
+				break
+			}
+			ov.phis[ph] = append(ov.phis[ph], fr.val(ph.Edges[idx]))
+		}
+	}
+	var exits []exitRec
+	for k := 0; k <= K; k++ {
+		if k == K {
+			// unwinding assertion: no further iteration is possible
+			name := fmt.Sprintf("%s/unwind/loop#%d", fnName(fr.fn), li.ordinal)
+			if fr.path != "" {
+				name += "@" + fr.path
+			}
+			vc.oblige("unwind", name, nil, sOr(ov.conds...), "false", fr.fn, h.Instrs[0].Pos(), fmt.Sprintf("loop fully unrolled after %d iterations", K))
+			break
+		}
+		for i, b := range body {
+			if i == 0 {
+				fr.block(b, ov)
+				continue
+			}
+			if inner := fr.loops[b.Index]; inner != nil && b != h {
+				if kk := fr.unrollCount(inner); kk > 0 {
+					innerDone := map[int]bool{}
+					fr.unrollLoop(inner, order, kk, innerDone)
+					for bi := range innerDone {
+						done[bi] = true
+					}
+					continue
+				}
+			}
+			if done[b.Index] && fr.loops[b.Index] == nil {
+				// part of an inner unrolled loop already processed in this iteration
+				inInner := false
+				for hi, l2 := range fr.loops {
+					if hi != h.Index && l2.body[b.Index] && li.body[hi] && fr.unrolling[hi] {
+						inInner = true
+					}
+				}
+				if inInner {
+					continue
+				}
+			}
+			fr.block(b, nil)
+		}
+		// exits and back edges of this iteration
+		next := &headOverride{phis: map[*ssa.Phi][]Val{}}
+		for _, b := range body {
+			for _, s := range b.Succs {
+				c, ok := fr.edge[[2]int{b.Index, s.Index}]
+				if !ok {
+					continue
+				}
+				if s == h {
+					next.conds = append(next.conds, c)
+					next.heaps = append(next.heaps, fr.exitHeap[b.Index])
+					idx := predIndex(h, b)
+					for _, in := range h.Instrs {
+						ph, ok := in.(*ssa.Phi)
+						if !ok {
+							break
+						}
+						next.phis[ph] = append(next.phis[ph], fr.val(ph.Edges[idx]))
+					}
+				} else if !li.body[s.Index] {
+					snap := map[ssa.Value]Val{}
+					for _, v := range liveOut {
+						if x, ok := fr.vals[v]; ok {
+							snap[v] = x
+						}
+					}
+					exits = append(exits, exitRec{b.Index, s.Index, c, fr.exitHeap[b.Index], snap})
+				}
+			}
+		}
+		// inner unrolled loops are re-unrolled in each outer iteration
+		for hi, l2 := range fr.loops {
+			if hi != h.Index && li.body[hi] {
+				delete(fr.unrolling, hi)
+				_ = l2
+			}
+		}
+		ov = next
+	}
+	// merge the exits
+	byFrom := map[int][]exitRec{}
+	for _, e := range exits {
+		byFrom[e.from] = append(byFrom[e.from], e)
+	}
+	for from, es := range byFrom {
+		var conds []string
+		var heaps []Heap
+		byTo := map[int][]string{}
+		for _, e := range es {
+			conds = append(conds, e.cond)
+			heaps = append(heaps, e.heap)
+			byTo[e.to] = append(byTo[e.to], e.cond)
+		}
+		fr.exitHeap[from] = vc.mergeHeaps(conds, heaps)
+		for to, cs := range byTo {
+			fr.edge[[2]int{from, to}] = vc.def("loopexit", "Bool", sOr(cs...))
+		}
+	}
+	if len(exits) > 0 {
+		for _, v := range liveOut {
+			var conds []string
+			var vs []Val
+			for _, e := range exits {
+				if x, ok := e.snap[v]; ok {
+					conds = append(conds, e.cond)
+					vs = append(vs, x)
+				}
+			}
+			if len(vs) > 0 {
+				fr.vals[v] = vc.mergeVals(v.Name(), v.Type(), conds, vs)
+			}
+		}
+	}
+	for _, b := range body {
+		done[b.Index] = true
+		if len(byFrom[b.Index]) == 0 {
+			for _, s := range b.Succs {
+				if !li.body[s.Index] {
+					if _, ok := fr.edge[[2]int{b.Index, s.Index}]; ok && len(exits) == 0 {
+						fr.edge[[2]int{b.Index, s.Index}] = "false"
+					}
+				}
+			}
+		}
+	}
+}
+
+func wrapBig(v *big.Int, k intKind) *big.Int {
+	m := pow2(k.bits)
+	r := new(big.Int).Mod(v, m)
+	if k.signed && r.Cmp(pow2(k.bits-1)) >= 0 {
+		r.Sub(r, m)
+	}
+	return r
+}
+
+func foldConst(op token.Token, x, y *big.Int, k intKind) (*big.Int, bool) {
+	switch op {
+	case token.ADD:
+		return wrapBig(new(big.Int).Add(x, y), k), true
+	case token.SUB:
+		return wrapBig(new(big.Int).Sub(x, y), k), true
+	case token.MUL:
+		return wrapBig(new(big.Int).Mul(x, y), k), true
+	case token.SHL:
+		if y.IsInt64() && y.Int64() >= 0 && y.Int64() < 256 {
+			return wrapBig(new(big.Int).Lsh(x, uint(y.Int64())), k), true
+		}
+	case token.SHR:
+		if y.IsInt64() && y.Int64() >= 0 && y.Int64() < 256 {
+			return new(big.Int).Rsh(x, uint(y.Int64())), true
+		}
+	case token.AND:
+		if x.Sign() >= 0 && y.Sign() >= 0 {
+			return new(big.Int).And(x, y), true
+		}
+	case token.OR:
+		if x.Sign() >= 0 && y.Sign() >= 0 {
+			return new(big.Int).Or(x, y), true
+		}
+	}
+	return nil, false
+}
+
+// digits returns base-256 digits of an unsigned value of the given width, introducing them if necessary
+func (vc *VC) digits(x Val, bits int) []string {
+	n := bits / 8
+	if x.Dig != nil {
+		d := append([]string{}, x.Dig...)
+		for len(d) < n {
+			d = append(d, "0")
+		}
+		return d[:n]
+	}
+	if c, ok := constOf(x); ok && c.Sign() >= 0 {
+		var d []string
+		t := new(big.Int).Set(c)
+		for i := 0; i < n; i++ {
+			d = append(d, new(big.Int).And(t, big.NewInt(255)).String())
+			t.Rsh(t, 8)
+		}
+		return d
+	}
+	if n == 1 {
+		return []string{x.T}
+	}
+	canon := x.T
+	if d, ok := vc.defIdx[x.T]; ok && d.Body != "" {
+		canon = d.Body
+	}
+	key := fmt.Sprintf("%s/%d", canon, n)
+	if d, ok := vc.digCache[key]; ok {
+		return d
+	}
+	var d []string
+	var parts []string
+	for i := 0; i < n; i++ {
+		c := vc.free("dig", "Int")
+		vc.setRng(c, sAnd(sApp("<=", "0", c), sApp("<=", c, "255")))
+		d = append(d, c)
+		if i == 0 {
+			parts = append(parts, c)
+		} else {
+			parts = append(parts, sApp("*", c, pow2s(8*i)))
+		}
+	}
+	vc.assume("true", sEq(x.T, sApp("+", parts...)), "base-256 digits")
+	if vc.digCache == nil {
+		vc.digCache = map[string][]string{}
+	}
+	vc.digCache[key] = d
+	return d
+}
+
+func digSum(d []string) string {
+	var parts []string
+	for i, c := range d {
+		if c == "0" {
+			continue
+		}
+		if i == 0 {
+			parts = append(parts, c)
+		} else {
+			parts = append(parts, sApp("*", c, pow2s(8*i)))
+		}
+	}
+	if len(parts) == 0 {
+		return "0"
+	}
+	if len(parts) == 1 {
+		return parts[0]
+	}
+	return sApp("+", parts...)
+}
+
+func mergeDigits(a, b []string) []string {
+	if a == nil || b == nil {
+		return nil
+	}
+	n := len(a)
+	if len(b) > n {
+		n = len(b)
+	}
+	out := make([]string, n)
+	for i := 0; i < n; i++ {
+		x, y := "0", "0"
+		if i < len(a) {
+			x = a[i]
+		}
+		if i < len(b) {
+			y = b[i]
+		}
+		switch {
+		case x == "0":
+			out[i] = y
+		case y == "0":
+			out[i] = x
+		default:
+			return nil
+		}
+	}
+	return out
 }
